@@ -17,8 +17,11 @@ import (
 	"github.com/prometheus/prometheus/tsdb/chunks"
 	"github.com/prometheus/prometheus/tsdb/index"
 
+	"github.com/prometheus/prometheus/tsdb/record"
+	"github.com/prometheus/prometheus/tsdb/wlog"
 	"verif/sim/core/simfs"
 	"verif/sim/model/tsdbmodel"
+	"verif/sim/model/walorder"
 )
 
 // ---- C24: a damaged chunk record or series index entry is reported, never returned as data ----
@@ -509,7 +512,17 @@ func (e *exec) logDamageCheck(img, where string) {
 				}
 			}
 			if d := e.subsetModuloCandidates(must, got); d != "" {
-				if hcClean && e.cfg.Snapshot {
+				if split := markerGroupSplit(img, filepath.Base(target), pos, e.scratch("mgs")); class == "chunks_head" && len(split) > 0 && e.onlyOOOOf(split, must, got) {
+					// listed finding: out-of-order chunks m-mapped together (one marker record), the damage removes the later
+					// one(s) only; the surviving marker makes the replay drop the WBL samples of all of them
+					e.res.Count("tolerated:"+TagMarkerGroupSplit, 1)
+					if e.cfg.KF == TagMarkerGroupSplit {
+						db.Close()
+						os.RemoveAll(dir)
+						e.fail("damage-content", "known:"+TagMarkerGroupSplit, "%s: %s", desc, d)
+						return
+					}
+				} else if hcClean && e.cfg.Snapshot {
 					// listed finding (C23): the snapshot is kept when a head chunk file lost chunks but still reads cleanly
 					e.res.Count("tolerated:"+TagSnapshotTrustsHeadChunks, 1)
 				} else if walRefReuse(img) || e.anyMultiRef() {
@@ -673,6 +686,88 @@ func headChunkOffsets(dir, file, scratch string) []int {
 		return nil
 	})
 	return offs
+}
+
+// TagMarkerGroupSplit is the known finding (C04): an out-of-order head chunk that holds samples of several types is
+// m-mapped as several chunks and logged as one WBL marker record; when damage to the head chunk file removes a later
+// chunk of that group but not the first, the replay honours the surviving marker and drops the WBL samples that
+// precede the record - including those of the lost chunk, which the intact WBL still holds.
+const TagMarkerGroupSplit = "ooo-samples-lost-when-head-chunk-damage-splits-chunks-m-mapped-together"
+
+// markerGroupSplit returns the label sets of the series for which the undamaged image img has a WBL marker record that
+// names one chunk of head chunk file `file` before and one at or behind the chunk hit at byte pos.
+func markerGroupSplit(img, file string, pos int, scratch string) map[string]bool {
+	offs := headChunkOffsets(filepath.Join(img, "chunks_head"), file, scratch)
+	lostFrom := -1
+	for _, o := range offs {
+		if o <= pos && o > lostFrom {
+			lostFrom = o
+		}
+	}
+	if lostFrom < 0 {
+		return nil
+	}
+	var want int
+	fmt.Sscanf(file, "%d", &want)
+	sr, err := wlog.NewSegmentsReader(filepath.Join(img, "wbl"))
+	if err != nil {
+		return nil
+	}
+	defer sr.Close()
+	refs := map[chunks.HeadSeriesRef]bool{}
+	dec := record.NewDecoder(labels.NewSymbolTable(), nil)
+	r := wlog.NewReader(sr)
+	for r.Next() {
+		rec := r.Record()
+		if dec.Type(rec) != record.MmapMarkers {
+			continue
+		}
+		ms, err := dec.MmapMarkers(rec, nil)
+		if err != nil {
+			break
+		}
+		before, behind := map[chunks.HeadSeriesRef]bool{}, map[chunks.HeadSeriesRef]bool{}
+		for _, m := range ms {
+			seq, off := m.MmapRef.Unpack()
+			if seq != want {
+				continue
+			}
+			if off < lostFrom {
+				before[m.Ref] = true
+			} else {
+				behind[m.Ref] = true
+			}
+		}
+		for ref := range before {
+			if behind[ref] {
+				refs[ref] = true
+			}
+		}
+	}
+	if len(refs) == 0 {
+		return nil
+	}
+	out := map[string]bool{}
+	for _, en := range walorder.ReadWAL(filepath.Join(img, "wal")).Entries {
+		if en.What == "series" && refs[chunks.HeadSeriesRef(en.Ref)] {
+			out[en.Labels] = true
+		}
+	}
+	return out
+}
+
+// onlyOOOOf reports whether everything of must that got lacks is an out-of-order sample of one of the series in set.
+func (e *exec) onlyOOOOf(set map[string]bool, must, got qresult) bool {
+	rest := qresult{}
+	for k, v := range must {
+		for _, s := range v {
+			if set[k] && e.cellOOO(k, s.T) {
+				continue
+			}
+			rest[k] = append(rest[k], s)
+		}
+	}
+	return e.subsetModuloCandidates(rest, got) == ""
 }
 
 // anyMultiRef reports whether some series has been known under several refs (duplicate series records: listed findings
